@@ -1,6 +1,7 @@
 import LyModel.Text.SpecLemmas
 import LyModel.XmlTree.Roundtrip
 import LyModel.XmlTree.OpaqTag
+import LyModel.XmlTree.OpaqFaithful
 import LyModel.Generated.JsonTyping
 import LyModel.JsonTree.Refine
 import LyModel.JsonTree.Faithful
@@ -127,7 +128,7 @@ theorem start_tag_binds_each_prefix_once_fails_without_numbered_prefixes :
       fx.reserved = true → consistent (reservedOf valPfx attrs) = true →
       ((declared (startTagItems fx st ns value valPfx attrs).1).map (·.1)).Nodup := by
   intro h
-  have := h ⟨false, true⟩ [] none [] []
+  have := h ⟨false, true, true⟩ [] none [] []
     [⟨none, none, [97], [112, 58, 120], [(some [112], [50])]⟩, ⟨some [112], some [49], [98], [118], []⟩] rfl (by decide)
   revert this
   decide
@@ -159,9 +160,9 @@ theorem attr_prefix_resolves_fails_without_reserved_check :
       fx.numbered = true →
       AttrsResolve (startTagItems fx st ns value valPfx attrs).2 attrs (attrsOf (startTagItems fx st ns value valPfx attrs).1) := by
   intro h
-  have := h ⟨true, false⟩ [(some [113], [117, 49])] none [] []
+  have := h ⟨true, false, true⟩ [(some [113], [117, 49])] none [] []
     [⟨some [112], some [117, 49], [97], [113, 58, 120], [(some [113], [117, 50])]⟩] rfl
-  have e : startTagItems ⟨true, false⟩ [(some [113], [117, 49])] none [] []
+  have e : startTagItems ⟨true, false, true⟩ [(some [113], [117, 49])] none [] []
       [⟨some [112], some [117, 49], [97], [113, 58, 120], [(some [113], [117, 50])]⟩] =
       ([.decl (some [113]) [117, 50], .attr (some [113]) [97] [113, 58, 120]],
        [(some [113], [117, 50]), (some [113], [117, 49])]) := by decide
@@ -177,9 +178,9 @@ theorem attr_prefix_resolves_fails_without_numbered_prefixes :
       fx.reserved = true →
       AttrsResolve (startTagItems fx st ns value valPfx attrs).2 attrs (attrsOf (startTagItems fx st ns value valPfx attrs).1) := by
   intro h
-  have := h ⟨false, true⟩ [(some [112], [117, 50])] none [] []
+  have := h ⟨false, true, true⟩ [(some [112], [117, 50])] none [] []
     [⟨some [120], some [117, 50], [97], [118], []⟩, ⟨some [112], some [117, 49], [98], [119], []⟩] rfl
-  have e : startTagItems ⟨false, true⟩ [(some [112], [117, 50])] none [] []
+  have e : startTagItems ⟨false, true, true⟩ [(some [112], [117, 50])] none [] []
       [⟨some [120], some [117, 50], [97], [118], []⟩, ⟨some [112], some [117, 49], [98], [119], []⟩] =
       ([.attr (some [112]) [97] [118], .decl (some [112]) [117, 49], .attr (some [112]) [98] [119]],
        [(some [112], [117, 49]), (some [112], [117, 50])]) := by decide
@@ -230,6 +231,148 @@ example :
    (start_tag_binds_each_prefix_once XmlTree.Fixes.all rfl rfl _ _ _ _ _ (by decide)).1,
    (attr_prefix_resolves XmlTree.Fixes.all rfl rfl _ _ _ _ _).1,
    ((attr_prefix_resolves XmlTree.Fixes.all rfl rfl _ _ _ _ _).2 (by decide)).1⟩
+
+/-! ## Opaque nodes: the whole document -/
+
+open XmlTree in
+/-- **(c) A printed forest of opaque nodes means the forest to any namespace-aware XML reader.**  For EVERY forest of opaque
+    nodes — any depth, any number of siblings and attributes, any prefixes and namespaces, prefixes re-bound and shadowed at any
+    level, default namespaces changing on the way down, values and value prefix data of any kind, character data next to child
+    elements — that satisfies the decidable well-formedness predicate `XmlTree.opaqOk` (names and prefixes are XML names other
+    than `xmlns`; no forbidden control characters; an attribute has a prefix exactly when it has a namespace; the attributes of
+    an element differ by expanded name; an element without namespace has no ancestor with one — finding F300, see (c′) below;
+    per start tag the values need one uri per prefix), the document the model of `xml_print_data` / `xml_print_opaq` / `xml_print_attr` / `xml_print_ns`
+    emits (shrink mode; every variant with both repairs of `xml_print_ns`, with or without the repair of F300) is well-formed XML 1.0 with namespaces, and the
+    independent reader written from the two standards (`XmlDoc.parseDoc`: attribute syntax and normalisation, declarations
+    scoped to the element and its content, the innermost binding wins, the default namespace applies to elements only, a
+    prefix must be declared, no declaration and no expanded attribute name twice in a start tag) recovers EXACTLY
+    `XmlTree.oviewList forest`: the elements in order, each with its expanded name (module_ns + name), its attributes in order
+    with expanded names (module_ns + name) and values, and its character data.  The printer model is compared byte for byte
+    with libyang on every generated forest, and `opaqOk` is evaluated on every one of them (driver op `opaqcheck`). -/
+theorem opaque_document_faithful (fx : Fixes) (hn : fx.numbered = true) (hr : fx.reserved = true) (forest : List ONode)
+    (h : opaqOk forest = true) :
+    XmlDoc.parseDoc (printOpaqData fx forest) = some (oviewList forest) :=
+  parseDoc_printOpaqData fx hn hr true (fun h => nomatch h) forest (opaqOk_sound forest h)
+
+open XmlTree in
+/-- **(c′) … for elements in no namespace anywhere** — the statement at full strength, `opaqOkAnyNs`: `opaqOk` without the
+    conjunct "an element without namespace has no ancestor with one".  True of the variant of the printer that writes
+    `xmlns=""` for an element in no namespace when a non-empty default namespace is in scope (`Fixes.undeclare`, the candidate
+    repair of finding F300; `tools/extractors/xmlns.py` reads off `xml_print_opaq_open` whether the source has it, and
+    `opaque_document_faithful` is the part that holds of both variants). -/
+theorem opaque_document_faithful_any_namespace (fx : Fixes) (hn : fx.numbered = true) (hr : fx.reserved = true)
+    (hu : fx.undeclare = true) (forest : List ONode) (h : opaqOkAnyNs forest = true) :
+    XmlDoc.parseDoc (printOpaqData fx forest) = some (oviewList forest) :=
+  parseDoc_printOpaqData fx hn hr false (fun _ => hu) forest (opaqOkAnyNs_sound forest h)
+
+/-- the namespace and name the reader reports for the only child of the only top-level element -/
+def innerName : Option (List XmlDoc.XElem) → Bytes × Bytes
+  | some [.mk _ _ _ _ [.mk ns n _ _ _]] => (ns, n)
+  | _ => ([], [])
+
+open XmlTree in
+/-- F300: of the code as it is (no undeclaration) the full statement is false.  The tree libyang builds for `<a xmlns="o"><b
+    xmlns="">t</b></a>` (`b` in no namespace) is printed as `<a xmlns="o"><b>t</b></a>`: every reader puts `b` into `o`.
+    The check replays this document on libyang on every run. -/
+theorem opaque_document_faithful_any_namespace_fails_without_undeclaration :
+    ¬ ∀ (fx : Fixes) (forest : List ONode), fx.numbered = true → fx.reserved = true → opaqOkAnyNs forest = true →
+      XmlDoc.parseDoc (printOpaqData fx forest) = some (oviewList forest) := by
+  intro h
+  have := h ⟨true, true, false⟩ [.mk [97] none (some [111]) [] [] [] [.mk [98] none none [116] [(none, [])] [] []]] rfl rfl (by decide)
+  have := congrArg innerName this
+  revert this
+  decide +kernel
+
+/-- non-vacuity of (c′): the same tree and a deeper one — `b` in no namespace below `a` in `o`, `c` in `o` again below `b`, `d`
+    in no namespace below `c` — are `opaqOkAnyNs` but not `opaqOk`; the repaired variant prints `xmlns=""` where needed and only
+    there (`e`, in no namespace below `d`, inherits the undeclaration) -/
+def exOpaqNoNs : List XmlTree.ONode :=
+  [.mk [97] none (some [111]) [] [] []
+    [.mk [98] none none [] [] [⟨some [112], some [49], [107], [118], []⟩]
+      [.mk [99] none (some [111]) [] [] [] [.mk [100] none none [] [] [] [.mk [101] none none [116] [(none, [])] [] []]]]]]
+
+example : XmlTree.opaqOkAnyNs exOpaqNoNs = true ∧ XmlTree.opaqOk exOpaqNoNs = false := by decide
+
+example : XmlTree.printOpaqData XmlTree.Fixes.all exOpaqNoNs = bytesOfString
+    "<a xmlns=\"o\"><b xmlns=\"\" xmlns:p=\"1\" p:k=\"v\"><c xmlns=\"o\"><d xmlns=\"\"><e>t</e></d></c></b></a>" := by
+  decide +kernel
+
+example : XmlDoc.parseDoc (XmlTree.printOpaqData XmlTree.Fixes.all exOpaqNoNs) = some (XmlTree.oviewList exOpaqNoNs) :=
+  opaque_document_faithful_any_namespace XmlTree.Fixes.all rfl rfl rfl exOpaqNoNs (by decide)
+
+/-- the attributes the reader reports for the only child of the only top-level element -/
+def innerAttrs : Option (List XmlDoc.XElem) → List (Bytes × Bytes × Bytes)
+  | some [.mk _ _ _ _ [.mk _ _ as _ _]] => as
+  | _ => []
+
+open XmlTree in
+/-- F195 at document level: without the numbered prefixes the statement is false.  `<r xmlns="o" xmlns:p="2" p:k="1"><e p:a="v"
+    xmlns:p="1" p:b="w"/></r>` is printed for a tree whose attribute `a` is in namespace `2`: every reader puts it in `1`. -/
+theorem opaque_document_faithful_fails_without_numbered_prefixes :
+    ¬ ∀ (fx : Fixes) (forest : List ONode), fx.reserved = true → opaqOk forest = true →
+      XmlDoc.parseDoc (printOpaqData fx forest) = some (oviewList forest) := by
+  intro h
+  have := h ⟨false, true, true⟩
+    [.mk [114] none (some [111]) [] [] [⟨some [112], some [50], [107], [49], []⟩]
+      [.mk [101] none (some [111]) [] [] [⟨some [120], some [50], [97], [118], []⟩, ⟨some [112], some [49], [98], [119], []⟩] []]]
+    rfl (by decide)
+  have := congrArg innerAttrs this
+  revert this
+  decide +kernel
+
+open XmlTree in
+/-- F196 at document level: without `xml_prefix_is_reserved` the statement is false.  `<r xmlns="o" xmlns:q="1" q:k="1"><e
+    q:a="q:x" xmlns:q="2"/></r>` is printed for a tree whose attribute `a` is in namespace `1`: every reader puts it in `2`. -/
+theorem opaque_document_faithful_fails_without_reserved_check :
+    ¬ ∀ (fx : Fixes) (forest : List ONode), fx.numbered = true → opaqOk forest = true →
+      XmlDoc.parseDoc (printOpaqData fx forest) = some (oviewList forest) := by
+  intro h
+  have := h ⟨true, false, true⟩
+    [.mk [114] none (some [111]) [] [] [⟨some [113], some [49], [107], [49], []⟩]
+      [.mk [101] none (some [111]) [] [] [⟨some [112], some [49], [97], [113, 58, 120], [(some [113], [50])]⟩] []]]
+    rfl (by decide)
+  have := congrArg innerAttrs this
+  revert this
+  decide +kernel
+
+/-- non-vacuity: the three-level forest `exOpaq` above (prefix `n` bound by `config`, re-bound by `server`, namespace `1` under
+    another prefix in `port`, an attribute in no namespace, QName values) satisfies the hypothesis … -/
+example : XmlTree.opaqOk exOpaq = true := by decide
+
+/-- … and the theorem instantiated at it, with the reader's result written out: `c`, `s`, `p` in namespace `o`; `op` in
+    namespace `1` with value `n:m`; `t` in namespace `2` (printed under the numbered prefix `n1`); `op` in namespace `1`
+    (printed under `x`) and `a` in no namespace; the character data `x:t` -/
+example : XmlDoc.parseDoc (XmlTree.printOpaqData XmlTree.Fixes.all exOpaq) = some
+    [.mk [111] [99] [([49], [111, 112], [110, 58, 109])] []
+      [.mk [111] [115] [([50], [116], [110, 58, 98])] []
+        [.mk [111] [112] [([49], [111, 112], [100]), ([], [97], [49])] [120, 58, 116] []]]] :=
+  opaque_document_faithful XmlTree.Fixes.all rfl rfl exOpaq (by decide)
+
+/-- non-vacuity, second forest: four levels, two top-level siblings, the default namespace changing twice on the way down and
+    back (`o` → `u` → `o`), an element without any namespace at the top, prefix `p` bound to three namespaces at three levels,
+    the same namespace under two prefixes, three attributes of three namespaces on one element, character data in front of a
+    child element, values that need escaping -/
+def exOpaq2 : List XmlTree.ONode :=
+  [.mk [122] none none [] [] [⟨none, none, [107], [60, 38], []⟩] [],
+   .mk [97] none (some [111]) [] [] [⟨some [112], some [49], [120], [112, 58, 118], [(some [112], [49])]⟩]
+    [.mk [98] none (some [117]) [116, 9] []
+        [⟨some [112], some [50], [120], [49], []⟩, ⟨some [113], some [49], [120], [50], []⟩, ⟨some [112], some [51], [121], [34], []⟩]
+      [.mk [99] none (some [111]) [] [] [⟨some [112], some [51], [119], [112, 58, 107], [(some [112], [52])]⟩]
+        [.mk [100] none (some [111]) [112, 58, 101] [(some [112], [49])] [] []]],
+     .mk [101] none (some [111]) [] [] [] []]]
+
+example : XmlTree.opaqOk exOpaq2 = true := by decide
+
+/-- what the model prints for it: `<z k="&lt;&amp;"/><a xmlns="o" xmlns:p="1" p:x="p:v"><b xmlns="u" xmlns:p1="2" p1:x="1"
+    p:x="2" xmlns:p2="3" p2:y="&quot;">t<TAB><c xmlns="o" xmlns:p="4" p2:w="p:k"><d xmlns:p="1">p:e</d></c></b><e/></a>` — the
+    suggestion `q` of the second attribute of `b` is dropped for the prefix `p` that `a` bound to namespace `1`, `c` reuses `p2`
+    of `b` for namespace `3` because its own value needs `p` for namespace `4`, `d` re-binds `p` to `1` for its character data -/
+example : XmlTree.printOpaqData XmlTree.Fixes.all exOpaq2 = bytesOfString
+    "<z k=\"&lt;&amp;\"/><a xmlns=\"o\" xmlns:p=\"1\" p:x=\"p:v\"><b xmlns=\"u\" xmlns:p1=\"2\" p1:x=\"1\" p:x=\"2\" xmlns:p2=\"3\" p2:y=\"&quot;\">t\t<c xmlns=\"o\" xmlns:p=\"4\" p2:w=\"p:k\"><d xmlns:p=\"1\">p:e</d></c></b><e/></a>" := by
+  decide +kernel
+
+example : XmlDoc.parseDoc (XmlTree.printOpaqData XmlTree.Fixes.all exOpaq2) = some (XmlTree.oviewList exOpaq2) :=
+  opaque_document_faithful XmlTree.Fixes.all rfl rfl exOpaq2 (by decide)
 
 /-- RFC 7951 sec. 6 as a table: how an instance of each YANG base type is written in JSON -/
 def rfc7951Kind : String → String
